@@ -19,11 +19,13 @@ func (e *Enc) mapSorts(mt *types.Map) (dName, vName, kSort, vSort, dSort, vArrSo
 	vArrSort = arrSort(arrSort2(kSort, vSort))
 	heapTypeMu.Lock()
 	mapElemTypes[vName] = mt.Elem()
+	mapKeySorts[vName] = kSort
 	heapTypeMu.Unlock()
 	return
 }
 
 var mapElemTypes = map[string]types.Type{}
+var mapKeySorts = map[string]string{}
 
 func (e *Enc) mapDom(mt *types.Map, m Term, st *State) Term {
 	dName, _, kSort, _, dSort, _ := e.mapSorts(mt)
@@ -42,7 +44,7 @@ func (e *Enc) mapLen(mt *types.Map, v Term, st *State) Term {
 	d := e.mapDom(mt, v, st)
 	_ = d
 	t := e.havoc("maplen", sInt)
-	e.assume(Term{app(">=", t.S, "0"), sBool})
+	e.assume(tAnd(Term{app(">=", t.S, "0"), sBool}, Term{app("<=", t.S, "72057594037927936"), sBool})) // a map has fewer entries than there is memory
 	return t
 }
 
